@@ -358,6 +358,16 @@ static uint32_t srv_build(int srvidx, int fd, const sdns_query_t *q, const srv_p
     case SA_NODATA:
       srv_soa_authority(o, serial, pl->soa_ttl, pl->soa_min);
       break;
+    case SA_SERVFAIL:
+    case SA_REFUSED:
+    case SA_NOTIMP:
+    case SA_FORMERR_OPT:
+    case SA_FORMERR_NOOPT:
+      if (sim_error_soa_ttl) {
+        /* an error reply that is not empty: it would have a lifetime if anything kept it */
+        srv_soa_authority(o, serial, sim_error_soa_ttl, sim_error_soa_ttl);
+      }
+      break;
     default:
       break;
   }
@@ -515,7 +525,7 @@ static void srv_receive(int srvidx, int fd, int is_tcp, const uint8_t *msg, size
   } else if (pl.action == SA_ANSWER || pl.action == SA_DUP) {
     /* answer of TXT-shaped rdata under the asked type */
   }
-  if (pl.action == SA_TC && is_tcp) {
+  if (pl.action == SA_TC && is_tcp && !s->tc_over_tcp) {
     pl.action = SA_ANSWER;
   }
   if (!is_tcp && (pl.action == SA_CLOSE)) {
